@@ -5,9 +5,11 @@ package main
 
 import (
 	"fmt"
+	"go/constant"
 	"go/token"
 	"go/types"
 	"sort"
+	"strconv"
 	"strings"
 
 	"golang.org/x/tools/go/ssa"
@@ -503,6 +505,34 @@ func ruleResourceCaps(p *Prog, a *Anchors, r *Report, rule string) {
 			}
 		}
 	}
+	// make([]T, n, m): a negative size panics, a size computed with + or * from an unbounded runtime number can wrap
+	// negative. Sizes must be lengths of existing objects, constants, or quotients/remainders/sums of such.
+	for _, f := range p.inPkgFuncsSorted(a.ExecReach()) {
+		cnt := 0
+		for _, b := range f.Blocks {
+			for _, in := range b.Instrs {
+				ms, ok := in.(*ssa.MakeSlice)
+				if !ok {
+					continue
+				}
+				for _, sz := range []ssa.Value{ms.Len, ms.Cap} {
+					if _, isC := sz.(*ssa.Const); isC {
+						continue
+					}
+					cnt++
+					key := p.FuncName(f) + ":make"
+					if cnt > 1 {
+						key += "#" + strconv.Itoa(cnt)
+					}
+					if sizeLike(p, in, sz, 0) {
+						r.OK(key, p.InstrPos(in), "size %s is a length/constant or derived from such without a wrapping operation", p.VN(sz))
+					} else {
+						r.Bad(key, p.InstrPos(in), "make with size %s, which is not provably non-negative: it involves a runtime number that is not a length (an addition or multiplication with an argument from the template can wrap around; a negative size panics)", p.VN(sz))
+					}
+				}
+			}
+		}
+	}
 	// lorem: counted loops bounded by node.count are behind the cap test
 	if f := p.Method("tagLoremNode", "Execute"); f != nil {
 		nLoops := 0
@@ -665,8 +695,154 @@ func nonNegative(p *Prog, at ssa.Instruction, n ssa.Value) bool {
 		if !isC {
 			return false
 		}
-		return (bo.Op == token.LSS && k <= 0 && !pol) || (bo.Op == token.GEQ && k >= 0 && pol) || (bo.Op == token.GTR && k >= -1 && pol) || (bo.Op == token.LEQ && k <= -1 && !pol)
+		return (bo.Op == token.LSS && k >= 0 && !pol) || (bo.Op == token.GEQ && k >= 0 && pol) || (bo.Op == token.GTR && k >= -1 && pol) || (bo.Op == token.LEQ && k >= -1 && !pol)
 	})
+}
+
+// sizeLike: v is non-negative and cannot have wrapped: a constant ≥ 0, len/cap of something, a field that only ever
+// holds such a value, a quotient/remainder of a size by anything, a sum/increment of sizes, a float scaling of a size
+// converted back, min/max of sizes, or a phi of such.
+func sizeLike(p *Prog, at ssa.Instruction, v ssa.Value, depth int) bool {
+	if depth > 8 {
+		return false
+	}
+	switch x := v.(type) {
+	case *ssa.Const:
+		if k, ok := constInt(x); ok {
+			return k >= 0
+		}
+		if x.Value != nil && (x.Value.Kind() == constant.Float || x.Value.Kind() == constant.Int) {
+			return constant.Sign(x.Value) >= 0
+		}
+		return false
+	case *ssa.Call:
+		bname := ""
+		if b, ok := x.Common().Value.(*ssa.Builtin); ok {
+			bname = b.Name()
+		} else if cal := x.Common().StaticCallee(); cal != nil && p.InPkg(cal) && (cal.Name() == "min" || cal.Name() == "max") && selectsAParameter(cal) {
+			bname = cal.Name() // the package's own two-argument min/max helper
+		}
+		if bname != "" {
+			switch bname {
+			case "len", "cap":
+				return true
+			case "min":
+				// bounded by a size, and every operand non-negative
+				bounded := false
+				for _, a := range x.Common().Args {
+					if sizeLike(p, at, a, depth+1) {
+						bounded = true
+					} else if !nonNegative(p, at, a) {
+						return false
+					}
+				}
+				return bounded
+			case "max":
+				// at least as large as a non-negative operand; the others must not be unbounded runtime numbers
+				for _, a := range x.Common().Args {
+					if sizeLike(p, at, a, depth+1) {
+						return true
+					}
+				}
+				return false
+			}
+		}
+		if cal := x.Common().StaticCallee(); cal != nil {
+			switch p.extName(cal) {
+			case "unicode/utf8.RuneCountInString", "unicode/utf8.RuneCount", "strings.Count", "(*bytes.Buffer).Len", "(*strings.Builder).Len", "(reflect.Value).Len", "(reflect.Value).Cap", "(reflect.Value).NumField":
+				return true
+			}
+			// a package function all of whose results are sizes
+			if p.InPkg(cal) && cal.Blocks != nil && depth < 4 {
+				rets := returnsOf(cal)
+				all := len(rets) > 0
+				for _, ret := range rets {
+					if len(ret.Results) != 1 || !sizeLike(p, ret, res(ret, 0), depth+2) {
+						all = false
+					}
+				}
+				return all
+			}
+		}
+		return false
+	case *ssa.Phi:
+		for _, e := range x.Edges {
+			if e != ssa.Value(x) && !sizeLike(p, at, e, depth+1) {
+				return false
+			}
+		}
+		return true
+	case *ssa.Convert:
+		return sizeLike(p, at, x.X, depth+1)
+	case *ssa.BinOp:
+		switch x.Op {
+		case token.QUO, token.REM, token.SHR:
+			return sizeLike(p, at, x.X, depth+1)
+		case token.ADD:
+			return sizeLike(p, at, x.X, depth+1) && sizeLike(p, at, x.Y, depth+1)
+		case token.MUL:
+			// scaling by a small constant factor
+			_, cx := x.X.(*ssa.Const)
+			_, cy := x.Y.(*ssa.Const)
+			return (cx || cy) && sizeLike(p, at, x.X, depth+1) && sizeLike(p, at, x.Y, depth+1)
+		case token.SUB:
+			return nonNegative(p, at, x) && sizeLike(p, at, x.X, depth+1)
+		}
+		return false
+	case *ssa.UnOp:
+		if sv := localLoadValue(x); sv != nil {
+			return sizeLike(p, at, sv, depth+1)
+		}
+		if _, n, fld := fieldLoadBase(x); n != nil {
+			// every store to the field is size-like
+			cnt, ok := 0, true
+			p.EachInstr(func(f *ssa.Function, in ssa.Instruction) {
+				if st, isSt := in.(*ssa.Store); isSt && isFieldAddrOf(st.Addr, n.Obj().Name(), fld) {
+					cnt++
+					if !sizeLike(p, in, st.Val, depth+1) {
+						ok = false
+					}
+				}
+			})
+			return ok && cnt > 0
+		}
+	}
+	return false
+}
+
+// selectsAParameter: every return of f hands back one of its parameters (min/max style selection).
+func selectsAParameter(f *ssa.Function) bool {
+	rets := returnsOf(f)
+	if len(rets) == 0 || f.Blocks == nil {
+		return false
+	}
+	for _, ret := range rets {
+		if len(ret.Results) != 1 {
+			return false
+		}
+		var ok func(v ssa.Value, d int) bool
+		ok = func(v ssa.Value, d int) bool {
+			if d > 3 {
+				return false
+			}
+			switch x := v.(type) {
+			case *ssa.Parameter:
+				return true
+			case *ssa.Phi:
+				for _, e := range x.Edges {
+					if !ok(e, d+1) {
+						return false
+					}
+				}
+				return true
+			}
+			return false
+		}
+		if !ok(res(ret, 0), 0) {
+			return false
+		}
+	}
+	return true
 }
 
 func edgeImpliesNonNeg(p *Prog, pred, blk *ssa.BasicBlock, v ssa.Value) bool {
@@ -687,5 +863,5 @@ func edgeImpliesNonNeg(p *Prog, pred, blk *ssa.BasicBlock, v ssa.Value) bool {
 	if !isC {
 		return false
 	}
-	return (bo.Op == token.LSS && k <= 0 && !pol) || (bo.Op == token.GEQ && k >= 0 && pol)
+	return (bo.Op == token.LSS && k >= 0 && !pol) || (bo.Op == token.GEQ && k >= 0 && pol) || (bo.Op == token.GTR && k >= -1 && pol) || (bo.Op == token.LEQ && k >= -1 && !pol)
 }
